@@ -430,8 +430,9 @@ def execute(chk, behaviours, label, timeout=1500):
         f.write("\n".join(lines) + "\n")
     rc, out = vlib.sh([b, script, trace, os.path.join(wd, "dir")], timeout=900, check=False)
     events = vlib.read_ndjson(trace) if os.path.exists(trace) else []
-    if rc not in (0, 3) or not events:
-        raise MachineryError("driver failed rc=%s (%s): %s" % (rc, label, out[-2000:]))
+    if rc != 0 or not events or events[-1].get("op") == "terminated":
+        # a crash of the driver is outside the statement of C11 (nothing was stored, announced or returned): machinery, not a verdict
+        raise MachineryError("driver failed rc=%s (%s), last event %s: %s" % (rc, label, json.dumps(compact(events[-1]))[:600] if events else None, out[-2000:]))
     res = validate(trace, events, wd, timeout)
     return lines, events, res
 
@@ -460,8 +461,9 @@ def describe(e):
     return e["op"]
 
 
+# vacuity guard on REFERENCE-side counters only (what the inputs were, as judged by the specification -- never what the code did)
 NEED = {"quick": {"stores": 200, "large_stores": 8, "fetches": 250, "meddled_fetches": 70, "not_genuine": 150, "genuine_tampered": 40,
-                  "recv_refused_not_genuine": 150, "recv_accepted": 60, "cli": 200, "chunkin": 200, "chunkin_stored": 15, "manifests": 80, "meddlings": 60}}
+                  "recv": 200, "cli": 200, "chunkin": 200, "manifests": 80, "meddlings": 60}}
 NEED["thorough"] = {k: v * 2 for k, v in NEED["quick"].items()}
 
 
@@ -470,11 +472,11 @@ def run(chk):
     rng = chk.rng
     hists = [h for h in model_check(chk) if h]
     log("[gen] %d TLC state-cover sequences" % len(hists))
-    pick = hists if thorough and len(hists) <= 3000 else rng.sample(hists, min(len(hists), 3000 if thorough else 50))
+    pick = rng.sample(hists, min(len(hists), 600 if thorough else 50))
     # always keep the longest ones (deep interleavings) in the sample
     deep = sorted(hists, key=len, reverse=True)[:20]
     cover = [hist_to_behaviour(h, j) for j, h in enumerate(deep + pick)]
-    behaviours = matrix_roundtrip(chk.tier) + matrix_tamper(chk.tier) + matrix_foreign(chk.tier) + cover + random_behaviours(rng, 600 if thorough else 30, thorough)
+    behaviours = matrix_roundtrip(chk.tier) + matrix_tamper(chk.tier) + matrix_foreign(chk.tier) + cover + random_behaviours(rng, 200 if thorough else 30, thorough)
     lines, events, res = execute(chk, behaviours, "all", timeout=3000 if thorough else 1200)
     st = res["stats"]
     nb = sum(1 for e in events if e["op"] == "reset")
@@ -494,7 +496,7 @@ def run(chk):
         nb, len(events), st.get("nviol", 0), res["lanes"], {k: v for k, v in st.items() if v}, res["wall"]))
     report(chk, res, events, lines, "matrices + TLC state cover + random")
     for k, lo in NEED[chk.tier].items():
-        if st.get(k, 0) < lo:
+        if not chk.viol and st.get(k, 0) < lo:
             raise MachineryError("vacuity: only %d '%s' cases reached the reference (need >= %d); stats=%s" % (st.get(k, 0), k, lo, st))
     chk.assumptions += [
         "the oracle is the TLA+ contract of spec/Content.tla evaluated with the executable references SHA256 (Sha256.tla), ChaCha20Xor (ChaCha20.tla) and Combine "
